@@ -1573,3 +1573,7 @@ pub mod ptest {
         }
     }
 }
+
+#[cfg(kani)]
+#[path = "/verif/kani/sciparse/c14_scmp_model.rs"]
+mod verif_c14_scmp_model;
